@@ -4,7 +4,7 @@ import re, json, sys
 rows = {}
 for fn in sys.argv[1:]:
     for l in open(fn):
-        m = re.match(r'\[(C\d\d[A-D])\] (C\d\d) exit=(\d) P=(\d+) F=(\d+) B=(\d+) Pproved=(\S+) undecided=(\d+) out_of_reach=(\[.*?\]) :: (.*)', l)
+        m = re.match(r'\[(C\d\d[A-F])\] (C\d\d) exit=(\d) P=(\d+) F=(\d+) B=(\d+) Pproved=(\S+) undecided=(\d+) out_of_reach=(\[.*?\]) :: (.*)', l)
         if m:
             rows[m.group(1)] = m.groups()
 declared = {'tags', '_change_dialect', '_match_title_line', '_is_gfm_table_separator', 'match_TagLine'}
